@@ -399,7 +399,7 @@ def check_C19(ctx):
 
 def check_C06(ctx):
     n = 4 if ctx.quick else 5
-    cases, _ = ctx.tlc_mc("MC_C06", mc_cfg({"N": n}, ["AcceptanceLaw", "RejectionIsFinal", "StackDepth", "FunctionAgrees", "EmitCase"]),
+    cases, _ = ctx.tlc_mc("MC_C06", mc_cfg({"N": n, "Ext": "FALSE"}, ["AcceptanceLaw", "RejectionIsFinal", "StackDepth", "FunctionAgrees", "EmitCase"]),
                           timeout=3000, heap="24g")
     def styled(cs):
         """each case once more under another spelling of its tags and objects (glued, hyphenated, spread over lines)"""
@@ -810,6 +810,10 @@ def check_EXT(ctx):
     n = 2 if ctx.quick else 3
     cases, _ = ctx.tlc_mc("MC_Ext", mc_cfg({"N": n}, ["Decided", "TwinLaw", "Terminates", "EmitCase"], props=["BlockSilent"]), timeout=3000)
     ctx.validate(ctx.run_cases(cases))
+    # the block parser with a block registered by the embedding program in its alphabet
+    pcases, _ = ctx.tlc_mc("MC_C06", mc_cfg({"N": 4 if ctx.quick else 5, "Ext": "TRUE"},
+                                             ["AcceptanceLaw", "RejectionIsFinal", "StackDepth", "FunctionAgrees", "EmitCase"]), timeout=3000, heap="16g")
+    ctx.validate(ctx.run_cases(pcases), module="TraceC06", nontrivial_key=lambda o: o["text"], chunk=20000)
     return finish(ctx, rule="MC_Ext: every program of <= %d statements over a pool of 23 statements that use constructs registered "
                             "through the embedding API (RegisterTag / RegisterBlock / RegisterFilter; render.Context: TagName, TagArgs, "
                             "EvaluateString, Set, Get, ExpandTagArg, Errorf, SourceFile, RenderFile, InnerString), run step by step on the "
